@@ -194,6 +194,16 @@ auto uninitialized_copy(boost::gil::bit_aligned_pixel_iterator<NonAlignedPixelRe
     return std::copy(first,last,dst);
 }
 
+// The same holds for uninitialized_fill: placement new at the address of a proxy reference leaves the pixels untouched,
+// so image(dims, fill_value) and recreate(dims, fill_value) of a bit-aligned image did not fill.
+template <typename NonAlignedPixelReference, typename Value>
+void uninitialized_fill(boost::gil::bit_aligned_pixel_iterator<NonAlignedPixelReference> first,
+    boost::gil::bit_aligned_pixel_iterator<NonAlignedPixelReference> last,
+    Value const& value)
+{
+    std::fill(first,last,value);
+}
+
 } // namespace std
 
 #endif
